@@ -33,6 +33,7 @@ RULE += ' Round 6: integer channel selections (the channel axis is dropped) and 
 RULE += ' Round 7: np.float64(g) on the left of every reflected operator (only where the expression is integer or double at that point: NumPy itself strips the type before the reader sees it); a 3000-row recording read with index arrays of > 1000 rows that agree in their first and last entries, through a reader and its relatives. Floating results are judged to a few units of the coarsest precision met along the expression.'
 RULE += ' Round 8: selector array objects shared between programs (negative entries, two widths) and required intact afterwards; the empty row range 3:3 where the root reader accepts it; tolerances from the coarsest precision along the expression.'
 RULE += ' Round 9: scalars -2, -4, -1 and 1.1.'
+RULE += ' Round 10: h = g; h op= c for the six augmented assignments (g must keep its values); 70000-row recordings read through expressions that keep one channel or reorder channels.'
 EXHAUSTIVE = {'quick': True, 'thorough': True}
 EXHAUSTIVE_SCOPE = {'quick': 'all programs of depth <= 2 on int16 and float32 (array backend)',
                     'thorough': 'depth <= 2 on every dtype, depth 3 on int16 (array backend)'}
